@@ -66,7 +66,7 @@ OPT_AXES = [
     Axis("cfg", ("A", "B", "C", "D")),
     Axis("values", ("list", "scalar", "tuple", "omit", "short", "long", "repeat")),
     Axis("fill", (0, -1)),
-    Axis("dtype", ("float32", "int16")),
+    Axis("dtype", ("float32", "int16", "float64")),
     Axis("contents", ("g1", "g2")),
 ]
 LIST_VALUES = [2, 3, 4, 6]
@@ -264,7 +264,7 @@ def bounds(tier):
         "FULL list": "every ordered list (with repetition, hence both orders of every pair) of length 0..%d over the "
                      "10-geometry pool x size {1..4}^2 x order x all_touched, at the default options" % (2 if q else 3),
         "DEVIATION list options": "option axes cfg{A,B,C,D}, values{list,scalar,tuple,omit,short,long}, fill{0,-1}, "
-                                  "dtype{float32,int16}, contents{g1,g2}: every assignment within %s of the default "
+                                  "dtype{float32,int16,float64 with values that float32 cannot represent}, contents{g1,g2}: every assignment within %s of the default "
                                   "(A, list, 0, float32, g1), each x the same full list product x order x all_touched x "
                                   "size %s" % (("1 deviation", "{1..3}^2") if q else
                                                ("1 deviation (lists <= 3), exactly 2 deviations (lists <= 2)", "{1..4}^2")),
@@ -356,8 +356,18 @@ def layout_of(nt, nf, order):
     return "time_first_square" if nt == nf else "time_first_non_square"
 
 
-def values_of(mode, n):
+FLOAT64_VALUES = [0.1, 1e-6, 16777217.0, 0.30000000000000004]  # not representable in float32
+FLOAT64_SCALAR = 0.7
+
+
+def values_of(mode, n, dtype="float32"):
     """(values argument or None when not passed, per-geometry values or None when the length is wrong)."""
+    if dtype == "float64":
+        return _values_of(mode, n, FLOAT64_VALUES, FLOAT64_SCALAR)
+    return _values_of(mode, n, LIST_VALUES, SCALAR_VALUE)
+
+
+def _values_of(mode, n, LIST_VALUES, SCALAR_VALUE):
     if mode == "list":
         return LIST_VALUES[:n], LIST_VALUES[:n]
     if mode == "tuple":
@@ -416,7 +426,7 @@ def run_case(case, singles=None):
     fill, dtype = 0, "float32"
     if opts:
         fill, dtype = opts["fill"], opts["dtype"]
-        arg, vals = values_of(opts["values"], n)
+        arg, vals = values_of(opts["values"], n, dtype)
         if arg is not None:
             base_kw["values"] = arg
         base_kw["fill"] = fill
